@@ -89,6 +89,7 @@ const (
 	P = iota
 	Q
 	R
+	Q2 // a twin of q: a distinct nodes.Value with the same initial value (and version)
 	A
 	B
 	C
@@ -98,9 +99,9 @@ const (
 	N
 )
 
-var nodeNames = [N]string{"p", "q", "r", "A", "B", "C", "D", "E", "F"}
+var nodeNames = [N]string{"p", "q", "r", "q2", "A", "B", "C", "D", "E", "F"}
 
-func isParam(n int) bool { return n == P || n == Q || n == R }
+func isParam(n int) bool { return n == P || n == Q || n == R || n == Q2 }
 
 type src struct {
 	port string
@@ -110,6 +111,7 @@ type src struct {
 type world struct {
 	p    *parameter.Value[string]
 	q    *nodes.ValueNode[string]
+	q2   *nodes.ValueNode[string]
 	r    *parameter.Value[[]int]
 	a, c *nodes.Struct[string, Un]
 	f    *nodes.Struct[string, Un]
@@ -117,7 +119,7 @@ type world struct {
 	d    *nodes.Struct[string, Arr]
 	e    *nodes.Struct[string, Sum]
 	// reference model
-	pver    [3]int
+	pver    [4]int
 	wiring  [N][]src // ordered inputs of struct nodes (array entries in order)
 	wver    [N]int   // bumped on every re-wiring of the node
 	lastSig [N]string
@@ -129,6 +131,8 @@ func (w *world) out(n int) nodes.NodeOutput[string] {
 		return w.p.Out()
 	case Q:
 		return w.q.Out()
+	case Q2:
+		return w.q2.Out()
 	case A:
 		return w.a.Out()
 	case B:
@@ -170,6 +174,7 @@ func build(seed string) *world {
 	w := &world{}
 	w.p = &parameter.Value[string]{Name: "p", DefaultValue: "p0"}
 	w.q = nodes.Value("q0")
+	w.q2 = nodes.Value("q0") // deep-equal to q until one of them is set
 	w.r = &parameter.Value[[]int]{Name: "r", DefaultValue: []int{1, 2}}
 	w.e = &nodes.Struct[string, Sum]{Data: Sum{ID: E, In: w.r.Out()}}
 	w.f = &nodes.Struct[string, Un]{Data: Un{ID: F}}
@@ -206,6 +211,8 @@ func (w *world) eval(n int) string {
 		return w.p.Value() // the parameter's *current* value as the parameter itself reports it
 	case Q:
 		return w.q.Value()
+	case Q2:
+		return w.q2.Value()
 	case A, C, F:
 		return fmt.Sprintf("u%d(%s)", n, get("In"))
 	case E:
@@ -298,6 +305,8 @@ func alphabet() []Op {
 		// a syntactically valid message that is rejected with a type error after its first element
 		Op{Kind: "setbad", A: R, S: `[10,"x",30]`},
 		Op{Kind: "wire", A: D, S: "Other", B: E}, Op{Kind: "wire", A: C, S: "In", B: F}, Op{Kind: "wire", A: F, S: "In", B: P},
+		// re-wiring to a distinct producer that is (still) indistinguishable by value and version
+		Op{Kind: "wire", A: B, S: "Y", B: Q2}, Op{Kind: "wire", A: D, S: "Extra", B: Q2}, Op{Kind: "set", A: Q2, S: "1"},
 	)
 	return o
 }
@@ -345,6 +354,8 @@ func apply(w *world, o Op, step int) (enabled bool, probs []problem) {
 			w.p.ApplyMessage([]byte(fmt.Sprintf("%q", "p"+o.S)))
 		case Q:
 			w.q.Set("q" + o.S)
+		case Q2:
+			w.q2.Set("q" + o.S)
 		case R:
 			if _, err := w.r.ApplyMessage([]byte(o.S)); err != nil {
 				panic(err)
